@@ -9,7 +9,8 @@
      - before_i < after_i <= |inp|               (every step consumes at least one byte),
      - tok_at inp before_i after_i t_i :  before_i <= pos_i, 0 <= len_i <= 31,
        pos_i + len_i <= after_i, val_i = inp[pos_i, pos_i+len_i), class_i in the
-       documented class alphabet;
+       documented class alphabet (moreover: function-class tokens have >= 2 bytes, comment
+       tokens >= 1 byte and >= 2 when they start with '/');
    hence pos_{i+1} >= after_i >= pos_i + len_i (ordered, non-overlapping).
    The scan ends with the scanner offset equal to |inp|.  No Panic, no OutOfFuel. *)
 From Coq Require Import List ZArith String Bool.
@@ -43,7 +44,8 @@ Theorem C16_elementwise :
 Proof.
   intros inp fl l s H i t b a N.
   destruct (tokens_spec inp fl) as (l' & s' & A & B & _). rewrite H in A. inversion A; subst l' s'.
-  destruct (toks_ok_nth inp l 0 i t b a B N) as (J1 & J2 & (K1 & K2 & K3 & K4 & K5 & K6) & J4 & J5).
+  destruct (toks_ok_nth inp l 0 i t b a B N) as (J1 & J2 & K & J4 & J5).
+  pose proof (tok_at_class _ _ _ _ K) as K6. destruct K as (K1 & K2 & K3 & K4 & K5 & _).
   change Consts.c_token_size with 32 in K4.
   repeat split; try assumption; try apply J2; try apply (J5 _ _ _ H0).
 Qed.
